@@ -137,4 +137,53 @@ theorem lex_printType (t : TypeRef) (hwf : Reader.WFType t) :
   rw [e]
   exact ⟨lexAll_items _ (G_typeI t hwf [] trivial), lexToks_kv _ 0⟩
 
+/-! ## non-vacuity -/
+
+private def L0 : Loc := ⟨0, 0⟩
+
+/-- `{ f(a: "é⏎", b: -1.5e3, c: [E, $v]) @d ... on T { g } }` and
+`"""café ☕""" type T implements I { "x\"" f(a: Int = 0): [T!]! }`: non-ASCII string and description contents, a description
+that is not block-safe (printed quoted), a float, a variable, nested blocks -/
+private def sampleDoc : Document :=
+  ⟨[ .operation .query none [] []
+      (.mk [ .field none ⟨"f", L0⟩
+               [⟨⟨"a", L0⟩, .str "é\n" L0, L0⟩, ⟨⟨"b", L0⟩, .float "-1.5e3" L0, L0⟩,
+                ⟨⟨"c", L0⟩, .list [.enum "E" L0, .var "v" L0] L0, L0⟩]
+               [⟨⟨"d", L0⟩, [], L0⟩] none L0,
+             .inline (some (.named "T" L0)) [] (.mk [.field none ⟨"g", L0⟩ [] [] none L0] L0) L0 ] L0) L0,
+     .object ⟨some "café ☕", ⟨"T", L0⟩, [.named "I" L0], [],
+       [⟨some "x\"", ⟨"f", L0⟩, [⟨none, ⟨"a", L0⟩, .named "Int" L0, some (.int "0" L0), [], L0⟩],
+         .nonNull (.list (.nonNull (.named "T" L0) L0) L0) L0, [], L0⟩], L0⟩ ], L0⟩
+
+private theorem sample_float : Reader.IsFloatLit "-1.5e3".toList :=
+  ⟨"-1".toList, ".5".toList, "e3".toList, by decide, by decide, Or.inr (by decide), Or.inr (by decide), Or.inl (by decide)⟩
+
+local macro "nm" : tactic => `(tactic| (show Reader.isNameC _ = true; decide))
+
+/-- the premise of the byte-level theorems is satisfiable by a document with executable and type-system definitions -/
+private theorem sample_wf : WFDocument sampleDoc := by
+  refine ⟨by simp [sampleDoc], ?_, ?_, trivial⟩
+  · refine ⟨trivial, trivial, trivial, by simp, ?_, ?_, trivial⟩
+    · refine ⟨trivial, by nm, ⟨⟨by nm, trivial⟩, ⟨by nm, sample_float⟩, ⟨by nm, ?_⟩, trivial⟩, ⟨⟨by nm, trivial⟩, trivial⟩, trivial⟩
+      exact ⟨⟨by nm, by decide, by decide, by decide⟩, by nm, trivial⟩
+    · refine ⟨by nm, trivial, by simp, ?_, trivial⟩
+      exact ⟨trivial, by nm, trivial, trivial, trivial⟩
+  · refine ⟨by nm, ⟨by nm, trivial⟩, trivial, ?_, trivial⟩
+    refine ⟨by nm, ⟨⟨by nm, by nm, ⟨by (show Reader.isIntLit _ = true; decide), trivial⟩, trivial⟩, trivial⟩, ?_, trivial⟩
+    exact ⟨⟨by nm, trivial⟩, trivial⟩
+
+example : ∃ d', parseBytes (printBytes sampleDoc) = .ok ⟨d', false⟩ ∧ d'.stripLoc = sampleDoc.stripLoc :=
+  parse_print sampleDoc sample_wf
+
+/-- `{ f(a: "é") }`: the models evaluated on the printed bytes — `"é"` occupies the four bytes [9, 13) -/
+private def tinyDoc : Document :=
+  ⟨[.operation .query none [] [] (.mk [.field none ⟨"f", L0⟩ [⟨⟨"a", L0⟩, .str "é" L0, L0⟩] [] none L0] L0) L0], L0⟩
+
+example : (lexAll (printBytes tinyDoc)).tokens.map (fun t => (t.kind, t.start, t.stop)) =
+    [(.braceL, 0, 1), (.name, 4, 5), (.parenL, 5, 6), (.name, 6, 7), (.colon, 7, 8), (.string, 9, 13), (.parenR, 13, 14),
+     (.braceR, 15, 16), (.eof, 17, 17)] := by decide +kernel
+
+example : (match parseBytes (printBytes tinyDoc) with | .ok p => print p.doc | .error _ => "") = print tinyDoc := by
+  decide +kernel
+
 end GqlModel.C08
